@@ -190,6 +190,19 @@ func (f *fileData) save() error {
 	return f.fs.setFile(f.path, f)
 }
 
+// saveOpen writes back changes made through an open file handle.
+// If the file was removed or renamed after it was opened, its name is not created again.
+func (f *fileData) saveOpen() error {
+	_, err := f.fs.getFile(f.path)
+	if errors.Is(err, hackpadfs.ErrNotExist) || errors.Is(err, hackpadfs.ErrNotDir) {
+		return nil
+	}
+	if err != nil {
+		return err
+	}
+	return f.save()
+}
+
 func (f *fileData) info() hackpadfs.FileInfo {
 	return fileInfo{Record: f, Path: f.path}
 }
@@ -347,7 +360,7 @@ func (f *file) writeBlobAt(op string, p blob.Blob, off int64) (n int, err error)
 	if n != 0 {
 		f.updateModTime()
 	}
-	err = f.save()
+	err = f.saveOpen()
 	return
 }
 
@@ -391,7 +404,7 @@ func (f *file) Truncate(size int64) error {
 		}
 	}
 	f.updateModTime()
-	return f.save()
+	return f.saveOpen()
 }
 
 func (f *file) ReadDir(n int) ([]hackpadfs.DirEntry, error) {
@@ -457,5 +470,5 @@ func (f *file) Chmod(mode hackpadfs.FileMode) error {
 	}
 	newMode := (f.Mode() & ^chmodBits) | (mode & chmodBits)
 	f.modeOverride = &newMode
-	return f.save()
+	return f.saveOpen()
 }
